@@ -3,16 +3,17 @@
    are replaced by the YAML of what they render to -- and therefore, when that twin is
    reference-free, the deep merge (Spec/DeepMerge.v) of the twin. *)
 From RV Require Import Model.Yaml Model.Interp Model.Node Spec.DeepMerge Proofs.ValueFacts Proofs.MappingFacts Proofs.WfFacts
-     Proofs.YamlFacts Proofs.InterpFacts Proofs.Mono Proofs.Refinement Proofs.NodeRefines Proofs.Twin.
+     Proofs.YamlFacts Proofs.InterpFacts Proofs.Mono Proofs.Refinement Proofs.NodeRefines Proofs.Twin Proofs.Unrender Proofs.Inline.
 
 Section TS.
   Variable root : mapping.
 
   (** the twin relation on YAML documents: equal up to reference strings replaced by a document
-      that converts to a closed value the reference renders to against [root] *)
+      that spells what the reference renders to against [root] -- it converts to the rendered value
+      [w] with (some of) its literal strings as plain strings, as a document holds them *)
   Fixpoint ytw (y y' : yaml) : Prop :=
     match y with
-    | YStr s => y' = YStr s \/ exists w, try_value_of_yaml y' = Ok w /\ denotes root (VStr s) w
+    | YStr s => y' = YStr s \/ exists w b, try_value_of_yaml y' = Ok b /\ denotes root (VStr s) w /\ lw w b
     | YSeq l =>
         exists l', y' = YSeq l' /\
           (fix go (l l' : list yaml) : Prop :=
@@ -54,18 +55,18 @@ Section TS.
 
   (** conversion respects the relation *)
   Lemma conv_tw : forall y y' v, ytw y y' -> try_value_of_yaml y = Ok v ->
-    exists v', try_value_of_yaml y' = Ok v' /\ tw root v v'.
+    exists v', try_value_of_yaml y' = Ok v' /\ inl root v v'.
   Proof.
     induction y as [| b | n | s | l IH | l IH | t y IH] using yaml_ind'; intros y' v Hy H.
-    - cbn [ytw] in Hy. subst y'. exists v. split; [exact H | apply tw_refl].
-    - cbn [ytw] in Hy. subst y'. exists v. split; [exact H | apply tw_refl].
-    - cbn [ytw] in Hy. subst y'. exists v. split; [exact H | apply tw_refl].
-    - cbn [try_value_of_yaml] in H. injection H as <-. cbn [ytw] in Hy. destruct Hy as [-> | (w & Hw & Hd)].
-      + exists (VStr s). split; [reflexivity | left; reflexivity].
-      + exists w. split; [exact Hw | right; exact Hd].
+    - cbn [ytw] in Hy. subst y'. exists v. split; [exact H | apply inl_refl].
+    - cbn [ytw] in Hy. subst y'. exists v. split; [exact H | apply inl_refl].
+    - cbn [ytw] in Hy. subst y'. exists v. split; [exact H | apply inl_refl].
+    - cbn [try_value_of_yaml] in H. injection H as <-. cbn [ytw] in Hy. destruct Hy as [-> | (w & b & Hb & Hd & Hl)].
+      + exists (VStr s). split; [reflexivity | apply inl_refl].
+      + exists b. split; [exact Hb|]. exists w. split; [right; exact Hd | exact Hl].
     - apply ytw_seq_iff in Hy as (l' & -> & Hl). rewrite try_seq_eq in *. unfold rmap in *.
       destruct (try_seq l) as [vs| | |] eqn:E; cbn [bind] in H; try discriminate. injection H as <-.
-      assert (G : exists vs', try_seq l' = Ok vs' /\ Forall2 (tw root) vs vs').
+      assert (G : exists vs', try_seq l' = Ok vs' /\ Forall2 (inl root) vs vs').
       { revert vs E IH. induction Hl as [|x x' l l' Hx _ IHl]; intros vs E IH; cbn [try_seq] in *.
         - injection E as <-. exists []. split; [reflexivity | constructor].
         - inversion IH as [|? ? Px Pl]; subst.
@@ -73,12 +74,11 @@ Section TS.
           destruct (try_seq l) as [vl| | |] eqn:El; cbn [bind] in E; try discriminate. injection E as <-.
           destruct (Px x' vx Hx eq_refl) as (vx' & Ex' & Hvx). destruct (IHl vl eq_refl Pl) as (vl' & El' & Hvl).
           rewrite Ex'. cbn [bind]. rewrite El'. cbn [bind]. exists (vx' :: vl'). split; [reflexivity | constructor; assumption]. }
-      destruct G as (vs' & E' & Hvs). rewrite E'. cbn [bind]. exists (VSeq vs'). split; [reflexivity|].
-      apply tw_seq_iff. exists vs'. split; [reflexivity | exact Hvs].
+      destruct G as (vs' & E' & Hvs). rewrite E'. cbn [bind]. exists (VSeq vs'). split; [reflexivity | exact (inl_seq root _ _ Hvs)].
     - apply ytw_map_iff in Hy as (l' & -> & Hl). rewrite try_map_eq in *. unfold rmap in *.
       destruct (try_map l []) as [m| | |] eqn:E; cbn [bind] in H; try discriminate. injection H as <-.
-      assert (G : forall acc acc' m, Forall2 (twe root) acc acc' -> try_map l acc = Ok m ->
-                    exists m', try_map l' acc' = Ok m' /\ Forall2 (twe root) m m').
+      assert (G : forall acc acc' m, inle root acc acc' -> try_map l acc = Ok m ->
+                    exists m', try_map l' acc' = Ok m' /\ inle root m m').
       { clear E. induction Hl as [|[k x] [k' x'] l l' [Hk Hx] _ IHl]; intros acc acc' m0 Ha E; cbn [try_map] in *.
         - injection E as <-. exists acc'. split; [reflexivity | exact Ha].
         - cbn [fst snd] in Hk, Hx. subst k'. inversion IH as [|? ? [_ Px] Pl]; subst. cbn [snd] in Px.
@@ -87,18 +87,17 @@ Section TS.
           destruct (Px x' vx Hx eq_refl) as (vx' & Ex' & Hvx). rewrite Ex'. cbn [bind].
           unfold m_insert in *.
           destruct (insert_impl acc kv vx false false) as [acc2| | |] eqn:Ei; cbn [bind] in E; try discriminate.
-          destruct (insert_impl_tw root _ _ _ _ _ _ _ _ Ha Hvx Ei) as (acc2' & Ei' & Ha2). rewrite Ei'. cbn [bind].
+          destruct (inle_insert root _ _ _ _ _ _ _ _ Ha Hvx Ei) as (acc2' & Ei' & Ha2). rewrite Ei'. cbn [bind].
           exact (IHl Pl _ _ _ Ha2 E). }
-      destruct (G [] [] m (Forall2_nil _) E) as (m' & E' & Hm). rewrite E'. cbn [bind]. exists (VMap m'). split; [reflexivity|].
-      apply tw_map_iff. exists m'. split; [reflexivity | exact Hm].
-    - cbn [ytw] in Hy. subst y'. exists v. split; [exact H | apply tw_refl].
+      destruct (G [] [] m (inle_nil root) E) as (m' & E' & Hm). rewrite E'. cbn [bind]. exists (VMap m'). split; [reflexivity | exact (inl_map root _ _ Hm)].
+    - cbn [ytw] in Hy. subst y'. exists v. split; [exact H | apply inl_refl].
   Qed.
 
   (** merging the layers respects it *)
   Lemma layers_tw : forall ys ys', Forall2 ytw ys ys' -> forall acc acc' m,
-    Forall2 (twe root) acc acc' ->
+    inle root acc acc' ->
     foldM (fun a y => x <- try_mapping_of_yaml y ;; mapping_merge a x) ys acc = Ok m ->
-    exists m', foldM (fun a y => x <- try_mapping_of_yaml y ;; mapping_merge a x) ys' acc' = Ok m' /\ Forall2 (twe root) m m'.
+    exists m', foldM (fun a y => x <- try_mapping_of_yaml y ;; mapping_merge a x) ys' acc' = Ok m' /\ inle root m m'.
   Proof.
     induction 1 as [|y y' ys ys' Hy _ IH]; intros acc acc' m Ha H; cbn [foldM] in *.
     - injection H as <-. exists acc'. split; [reflexivity | exact Ha].
@@ -106,9 +105,9 @@ Section TS.
       destruct (try_value_of_yaml y) as [v| | |] eqn:Ev; cbn [bind] in H; try discriminate.
       destruct (conv_tw _ _ _ Hy Ev) as (v' & Ev' & Hv). rewrite Ev'. cbn [bind].
       destruct v as [| b | s | s | n | a | l | l]; cbn [bind] in H; try discriminate.
-      apply tw_map_iff in Hv as (a' & -> & Haa). cbn [bind] in *.
+      apply inl_map_inv in Hv as (a' & -> & Haa). cbn [bind] in *.
       destruct (mapping_merge acc a) as [acc2| | |] eqn:Em; cbn [bind] in H; try discriminate.
-      destruct (mapping_merge_tw root _ _ _ _ _ Haa Ha Em) as (acc2' & Em' & Ha2). rewrite Em'. cbn [bind].
+      destruct (inle_merge root _ _ _ _ _ Haa Ha Em) as (acc2' & Em' & Ha2). rewrite Em'. cbn [bind].
       exact (IH _ _ _ Ha2 H).
   Qed.
 End TS.
@@ -133,14 +132,14 @@ Theorem stack_renders_as_its_inlined_twin F ys ys' m r :
   Forall clean_layer ys -> Forall clean_layer ys' ->
   merge_layers_try ys = Ok m -> Forall2 (ytw m) ys ys' ->
   render_with_self F (VMap m) = Ok r ->
-  exists m', merge_layers_try ys' = Ok m' /\ render_with_self F (VMap m') = Ok r.
+  exists m', merge_layers_try ys' = Ok m' /\ render_with_self (S F) (VMap m') = Ok r.
 Proof.
   intros Hc Hc' Hm Hy Hr. unfold merge_layers_try in *.
-  destruct (layers_tw m ys ys' Hy [] [] m (Forall2_nil _) Hm) as (m' & Hm' & Hmm).
+  destruct (layers_tw m ys ys' Hy [] [] m (inle_nil m) Hm) as (m' & Hm' & Hmm).
   exists m'. split; [exact Hm'|].
   assert (Hw : wf (VMap m)) by (apply (merge_layers_try_wf ys [] m Hc); [repeat constructor | exact Hm]).
   assert (Hw' : wf (VMap m')) by (apply (merge_layers_try_wf ys' [] m' Hc'); [repeat constructor | exact Hm']).
-  exact (twin_renders_the_same m m' Hw Hw' Hmm F r Hr).
+  exact (inlined_parameters_render_the_same m m' Hw Hw' Hmm F r Hr).
 Qed.
 
 (** ... and, when the twin is reference-free, the deep merge of the twin *)
@@ -158,8 +157,8 @@ Proof.
   assert (Hc' : Forall clean_layer ys') by (eapply Forall_impl; [|exact Hl]; intros y Hyy; apply Hyy).
   destruct (stack_renders_as_its_inlined_twin F ys ys' m r Hc Hc' Hm Hy Hr) as (m' & Hm' & Hr').
   destruct (render_refines_deep_merge f ys' Hne Hl) as [F0 HF].
-  specialize (HF (Nat.max F0 F) (Nat.le_max_l _ _)). unfold render_stack in HF. rewrite Hm' in HF. cbn [bind] in HF.
-  rewrite (render_with_self_mono F (Nat.max F0 F) (VMap m') r (Nat.le_max_r _ _) Hr') in HF.
+  specialize (HF (Nat.max F0 (S F)) (Nat.le_max_l _ _)). unfold render_stack in HF. rewrite Hm' in HF. cbn [bind] in HF.
+  rewrite (render_with_self_mono (S F) (Nat.max F0 (S F)) (VMap m') r (Nat.le_max_r _ _) Hr') in HF.
   destruct (deep_merge (S f) ys') as [v | e |]; cbn [stack_rel] in HF.
   - destruct HF as (v' & E & Hu). injection E as <-. exact Hu.
   - destruct e as [k | | p]; [destruct HF as [E|E]; discriminate | destruct HF as (ck & a & b & E); discriminate | exact HF].
